@@ -130,7 +130,9 @@ class RegistryServer(object):
             if magic != "RPYC":
                 self.logger.warn("invalid magic: %r", magic)
                 continue
-            cmdfunc = getattr(self, "cmd_%s" % (cmd.lower(),), None)
+            cmdfunc = None
+            if isinstance(cmd, str):
+                cmdfunc = getattr(self, "cmd_%s" % (cmd.lower(),), None)
             if not cmdfunc:
                 self.logger.warn("unknown command: %r", cmd)
                 continue
